@@ -188,6 +188,16 @@ def blocks_to_bytes(
     if isinstance(block_type, Function) and block_type.docstring is not None:
         constants[0] = block_type.docstring
 
+    # The freevars are indexed after all the cellvars, so first give the cellvars
+    # their indices, in the same order as below, to know how many of them there are
+    for block in blocks:
+        for instruction in block:
+            if isinstance(instruction.arg, Cellvar):
+                cellvars.add(instruction.arg.cellvar, instruction.arg._index_override)
+    for arg in additional_args:
+        if isinstance(arg, Cellvar):
+            cellvars.add(arg.cellvar, arg._index_override)
+
     # Iterate through all blocks and change jump instructions to offsets
     while changed_instruction_lengths:
 
@@ -246,14 +256,6 @@ def blocks_to_bytes(
     # Process all additional arg to record their values
     for arg in additional_args:
         from_arg(arg, block_type, freevars, names, varnames, cellvars, constants)
-
-    # Now that we know the total number of cellvars, incremement all the freevar
-    # indices by the number of cellvars, for each arg
-    for block_index, block in enumerate(blocks):
-        for instruction_index, instruction in enumerate(block):
-            arg = instruction.arg
-            if isinstance(arg, Freevar):
-                args[block_index, instruction_index] += len(cellvars)
 
     # Finally go assemble the bytes and the line mapping
     bytes_: list[int] = []
@@ -344,7 +346,8 @@ def from_arg(
     if isinstance(arg, Varname):
         return varnames.add(arg.varname, arg._index_override)
     if isinstance(arg, Freevar):
-        return freevars.index(arg.freevar)
+        # The cell vars are indexed first then the freevars.
+        return len(cellvars) + freevars.index(arg.freevar)
     if isinstance(arg, Cellvar):
         return cellvars.add(arg.cellvar, arg._index_override)
     if isinstance(arg, Constant):
